@@ -80,6 +80,29 @@ pub fn score_case<const N: usize, const W: usize, const QN: usize, const QW: usi
     std::mem::forget(hit);
 }
 
+/// `score_case` with every character restricted to a four-symbol alphabet (two letters, two
+/// digits): keeps character classification - should the code under test ever consult it at this
+/// level - within reach of constant folding, and makes digit-only queries an explicit case.
+pub fn score_case_ascii<const N: usize, const W: usize, const QN: usize, const QW: usize>(
+    rspans: [(usize, usize); W], rstems: [usize; W], qspans: [(usize, usize); QW], qstems: [usize; QW], qfin: bool, cap: usize,
+) {
+    unsafe { vh::DAMLEV_CAPACITY = cap; }
+    let title = any_txt_stems::<N, W>(rspans, rstems, true);
+    let query = any_txt_stems::<QN, QW>(qspans, qstems, qfin);
+    let mut i = 0;
+    while i < N { let c = title.chars[i]; nd::assume(c == 'a' || c == 'b' || c == '1' || c == '2'); i += 1; }
+    let mut i = 0;
+    while i < QN { let c = query.chars[i]; nd::assume(c == 'a' || c == 'b' || c == '1' || c == '2'); i += 1; }
+    let qref = query.text();
+    let mut hit = Hit { id: 7, title: title.text(), rating: 1, rmatches: Vec::with_capacity(1), qmatches: Vec::with_capacity(1), scores: Default::default() };
+    vh::score(&qref, &mut hit);
+    check_structure(&title, &query, &hit.rmatches, &hit.qmatches);
+    let keep = vh::hit_matches(&qref, &hit);
+    if hit.rmatches.len() == 0 && QW > 0 { assert!(!keep, "C09: a hit for a non-empty query has no highlighted span"); }
+    crate::witness!(QW == 0 || (hit.rmatches.len() == 0 && query.chars[0] == '1'), "a digit query without a match is reachable");
+    std::mem::forget(hit);
+}
+
 fn same_matches(a: &[WordMatch], b: &[WordMatch]) -> bool {
     if a.len() != b.len() { return false; }
     let mut i = 0;
@@ -144,6 +167,8 @@ cases! {
     tm_r11_q1 = score_case::<3, 2, 1, 1>([(0, 1), (2, 3)], [1, 1], [(0, 1)], [1], false, 4);
     tm_r2_q0 = score_case::<2, 1, 1, 0>([(0, 2)], [2], [], [], true, 3);
     tm_r0_q2 = score_case::<1, 0, 2, 1>([], [], [(0, 2)], [2], true, 3);
+    tm_ascii_r1_q1 = score_case_ascii::<1, 1, 1, 1>([(0, 1)], [1], [(0, 1)], [1], true, 3);
+    tm_ascii_r2_q2 = score_case_ascii::<2, 1, 2, 1>([(0, 2)], [2], [(0, 2)], [2], true, 4);
     tm_local_r1_q1 = local_case::<1, 1, 1, 1>([(0, 1)], [1], [(0, 1)], [1], true, 3);
     tm_local_r2_q2 = local_case::<2, 1, 2, 1>([(0, 2)], [2], [(0, 2)], [2], true, 4);
     tm_r22_q4 = score_case::<5, 2, 4, 1>([(0, 2), (3, 5)], [2, 2], [(0, 4)], [4], true, 6);
